@@ -573,6 +573,18 @@ def shapes(al, tier, excs, ok=None):
         ("pipe-litq-first", lambda: pipe(const(S("qq")), c())),
         ("pipe-litpipe", lambda: pipe(c(), const(S("pp")), c())),
         ("pipe-var-litq", lambda: pipe(var("nope"), const(S("q")))),
+        # import: (no alternatives of its own; its failure is no lookup-type exception) and the explicit python: prefix
+        ("imp", lambda: imp(True)),
+        ("imp-bad", lambda: imp(False)),
+        ("imp-exists", lambda: exists(imp(True))),
+        ("imp-exists-bad", lambda: exists(imp(False))),
+        ("imp-not", lambda: not_(imp(True))),
+        ("imp-pipe-2nd", lambda: pipe(c(), imp(True))),
+        ("imp-pipe-last-bad", lambda: pipe(c(), c(), imp(False))),
+        ("imp-str", lambda: strx(litp(), imp(True), litp(), c())),
+        ("pyprefix-pipe", lambda: pipe(wrap("pyprefix", c()), wrap("pyprefix2", c()))),
+        ("pyprefix-not", lambda: not_(wrap("pyprefix", c()))),
+        ("pyprefix-str", lambda: strx(litp(), wrap("pyprefix", c()))),
         ("pipe-var", lambda: pipe(var("nope"), c())),
         ("var-builtin", lambda: pipe(var("len"), c())),
         ("attr", lambda: attr(al.call("content", [DICT([("a", S("b"))]), DICT([("z", S("b"))]), OBJ("attr"), NONE,
@@ -644,7 +656,7 @@ def c04_family(tier, rnd):
             al.k = 0
             al.dom = {}
             e = mk()
-            if site == "repeat" and sname.split("-")[0] in ("not", "exists", "str"):
+            if site == "repeat" and sname.split("-")[0] in ("not", "exists", "str", "imp"):
                 continue     # these never yield an iterable
             items = host(site, e, al)
             # (wrapper forms bind names of their own -- x, y, len: the template's variables of these names are bound, and
